@@ -22,8 +22,9 @@ META = {
             "modelled ones; the real library is run on random lists (length 1-6, equal elements, several identifiers, joint calls) "
             "and compared with w_i/sum(w) (1e-9) and with the model's exact world sums evaluated in Coq.",
     "note": "Trusted: Coq kernel + vm_compute; the reading of the three sw/6 clauses as the function `sw` of ModelSelectW.v "
-            "(checked syntactically against the parsed clauses and differentially against the engine); the general equality "
-            "world-sum = sum of products is not proved, it is evaluated exactly per case.",
+            "(checked syntactically against the parsed clauses and differentially against the engine); the equality "
+            "world-sum = sum of products is proved for every single call (C32_world_sum_is_product_sum, C32_weighted_world); "
+            "for joint queries of two calls it is evaluated exactly per case.",
 }
 
 HEADER = """From Coq Require Import ZArith QArith List Bool NArith.
